@@ -149,6 +149,8 @@ class Ctx:
         return l
 
     def rec(self, aid, oi, phase, data):
+        if self.s.teardown or self.s.finished:
+            raise TaskKilled()  # the run is over: histories are frozen
         self.H.append((self.s.next_seq(), aid, oi, phase, data))
 
     def table(self, key):
@@ -314,6 +316,16 @@ def do_op(ctx, aid, oi, table, op):
         to = op[2] if len(op) > 2 else None
         _ch(table, op[1]).waitclose(to) if to is not None else _ch(table, op[1]).waitclose()
         return ("ok",)
+    if k == "poll_remote":
+        # ["poll_remote", ch, tries]: wait (in simulated time) until waitclose raises something
+        ch = _ch(table, op[1])
+        for _ in range(op[2]):
+            try:
+                ch.waitclose(0.5)
+            except ch.TimeoutError:
+                continue
+            s.sleep(0.5)
+        return ("gave-up",)
     if k == "isclosed":
         return ("val", bool(_ch(table, op[1]).isclosed()))
     if k == "drop":
